@@ -285,6 +285,24 @@ impl Parser for Expression {
             Ok((input, exp))
         }
 
+        /// True if the error of a missing operand was reported to the enclosing node
+        fn reports_to_parent(expr: &Expression) -> bool {
+            match expr {
+                Expression::Binary(binary) => {
+                    matches!(*binary.rhs, Expression::Error(_))
+                        || reports_to_parent(&binary.lhs)
+                        || reports_to_parent(&binary.rhs)
+                }
+                _ => false,
+            }
+        }
+
+        // The error of a missing operand is not stored in the expression,
+        // but reported to the enclosing node.
+        // Such an expression cannot be reused, because the error would get lost,
+        // when the enclosing node is rebuilt.
+        let this = this.filter(|expr| !reports_to_parent(expr));
+
         // Expr := Comp
         affected(this, parse_comparison)(input)
     }
